@@ -38,6 +38,7 @@ import (
 	"github.com/sourcegraph/zoekt/index"
 	"github.com/sourcegraph/zoekt/internal/tenant/systemtenant"
 	"github.com/sourcegraph/zoekt/internal/trace"
+	"github.com/sourcegraph/zoekt/internal/verifhook"
 	"github.com/sourcegraph/zoekt/query"
 )
 
@@ -324,6 +325,7 @@ func (tl *loader) load(keys ...string) {
 		chunk := loadedShards
 		loadedShards = make(map[string]zoekt.Searcher)
 		mu.Unlock()
+		verifhook.Point("loader.publish")
 		tl.ss.replace(chunk)
 	}
 
@@ -659,6 +661,7 @@ func (ss *shardedSearcher) StreamSearch(ctx context.Context, q query.Q, opts *zo
 	tr.LazyPrintf("acquired process")
 
 	loaded := ss.getLoaded()
+	verifhook.Point("search.loaded")
 	shards := loaded.shards
 
 	maxPendingPriority := math.Inf(-1)
@@ -1303,6 +1306,7 @@ func (s *shardedSearcher) replace(shards map[string]zoekt.Searcher) {
 		return ranked[i].repos[0].Name < ranked[j].repos[0].Name
 	})
 
+	verifhook.Point("replace.store")
 	s.ranked.Store(ranked)
 
 	metricShardsLoaded.Set(float64(len(ranked)))
